@@ -8,6 +8,7 @@ import (
 	"net/http"
 	"net/http/httptest"
 	"strconv"
+	"strings"
 	"sync"
 	"testing"
 	"time"
@@ -43,6 +44,11 @@ func httpRun(c httpCase) (sig string, err error) {
 	if perr := safely(func() error { h.ServeHTTP(rw, req); return nil }); perr != nil {
 		return "http-handler-panics", perr
 	}
+	if rw.Code != 200 && c.Kind == "undecodable" && !strings.Contains(rw.Body.String(), "too large") {
+		// a correctly delimited request (POST, accepted content type, right length) whose body cannot be decoded is
+		// answered with an invalid-message response, not turned away at the HTTP level
+		return "http-undecodable-not-invalid-message", fmt.Errorf("undecodable %s request answered with HTTP %d %q instead of an invalid-message response", c.ContentType, rw.Code, strings.TrimSpace(rw.Body.String()))
+	}
 	if rw.Code != 200 {
 		return "", nil // rejected at the HTTP level
 	}
@@ -73,7 +79,7 @@ func httpRun(c httpCase) (sig string, err error) {
 
 func TestC08HTTP(t *testing.T) {
 	const name = "TestC08HTTP"
-	rec := evid.New("C08", name, "HTTP transport: POST bodies in the three content types - valid requests, correctly delimited but undecodable messages (9 kinds, binary), byte-mutated messages, wrong Content-Length - through NewHTTPHandler(...).ServeHTTP; "+
+	rec := evid.New("C08", name, "HTTP transport: POST bodies in the three content types - valid requests, correctly delimited but undecodable messages (9 kinds, binary; XML / JSON bodies damaged at the syntax level: cut, closed by the wrong element, no document at all), byte-mutated messages, wrong Content-Length - through NewHTTPHandler(...).ServeHTTP; "+
 		"oracle: no panic, a 200 answer is a decodable response message, undecodable requests get a single invalid-message item, valid ones are served; non-trivial = not a valid request; distinct by case").Attach(t)
 	if rp := evid.LoadReplay(name); rp != nil {
 		var c httpCase
@@ -113,6 +119,24 @@ func TestC08HTTP(t *testing.T) {
 			if c.ContentType == "application/octet-stream" {
 				c.Kind = "undecodable"
 				body = undecodable(rapid.SampledFrom(undecodableKinds).Draw(rt, "ukind"))
+			} else if rapid.Bool().Draw(rt, "syntaxdamage") {
+				// damaged at the level of the XML / JSON syntax itself: cut in the middle, closed by the wrong element,
+				// no document at all
+				c.Kind = "undecodable"
+				switch rapid.IntRange(0, 3).Draw(rt, "damage") {
+				case 0:
+					body = body[:rapid.IntRange(1, len(body)-2).Draw(rt, "cutat")]
+				case 1:
+					if c.ContentType == "text/xml" {
+						body = []byte(strings.Replace(string(body), "</RequestMessage>", "</RequestHeader>", 1))
+					} else {
+						body = append(bytes.TrimRight(body, "}\n \t"), ']')
+					}
+				case 2:
+					body = []byte("this is neither XML nor JSON")
+				default:
+					body = append([]byte{0xEF, 0xBB, 0xBF, 0x00}, body...)
+				}
 			} else {
 				c.Kind = "mutated"
 				to := gen.DefaultTreeOpts()
